@@ -853,6 +853,8 @@ class Frame:
                 v = base.fields[attr]
                 if isinstance(v, Poison):
                     raise Unsupported(f"read of field {attr}: {v.why}")
+                if isinstance(v, sym.Maybe):
+                    v = v.resolve()
                 return v
             ci = I.class_of(base)
             if ci is not None:
@@ -1798,6 +1800,8 @@ def builtin_call(fr: Frame, name, args, kwargs):
     if name == "type":
         x = args[0]
         if isinstance(x, Obj):
+            if "__type_tag__" in x.fields:
+                return x.fields["__type_tag__"]        # symbolic class identity (an integer tag)
             ci = fr.I.class_of(x)
             return RepoCls(ci) if ci else TypeRef(x.cls)
         if is_int(x):
